@@ -644,18 +644,24 @@ def run_twin(case, order, late=False):
 
 
 def identify(case, log, enq_order):
-    """Map the calls seen by the spy to requested operations: same recording, kind and arguments; identical
-    requests (repeated saves of one recording) are matched in enqueue order."""
+    """Map the calls seen by the spy to requested operations: same recording, kind and arguments.  Identical
+    requests (saves of one recording issued by several producers) are interchangeable: among them prefer the one whose
+    producer has nothing earlier outstanding, then the earliest enqueued."""
     pool = {}
     for p, i in enq_order:
         op = case['work'][p][i]
         pool.setdefault((op['rec'], spy_kind(op), ident(spy_kind(op), op_args(op))), []).append((p, i))
+    outstanding = {}
+    for p, i in enq_order:
+        outstanding.setdefault(p, set()).add(i)
     applied, phantom = [], []
     for rec, kind, args, ok, role in log:
         cands = pool.get((rec, kind, ident(kind, args)))
         if cands:
-            p, i = cands.pop(0)
-            applied.append([p, i, bool(ok)])
+            pick = next((c for c in cands if min(outstanding[c[0]]) == c[1]), cands[0])
+            cands.remove(pick)
+            outstanding[pick[0]].discard(pick[1])
+            applied.append([pick[0], pick[1], bool(ok)])
         else:
             phantom.append([rec, kind, list(args)])
     return applied, phantom
@@ -898,10 +904,10 @@ def real_once(case, delay, switch):
                     dt = time.monotonic() - t0
                     stamps[(p, i)] = (b, next(tick))
                     calls[p][i] = res
-                    if delay and dt > 0.6 * delay:
+                    if delay >= 0.02 and dt > 0.6 * delay:      # (short delays: scheduling noise is of the same size)
                         slow.append([p, i, round(dt / delay, 2)])
-                    if (p + i) % 3 == 0:
-                        time.sleep(0.0005)
+                    # spread the requests over several flush cycles so that they overlap storage calls
+                    time.sleep(0.0005 * (1 + (p + i) % 3) + (delay / 3.0 if delay else 0.0))
             return run
         ths = [threading.Thread(target=body(p, ops)) for p, ops in enumerate(case['work'])]
         for t in ths:
